@@ -203,6 +203,10 @@ where
             let mut b4 = hb.clone();
             b4.insert(0, 0);
             h_edits.push(("leading-zero-octet-added", Some(b4)));
+            // same length and the same FNV-1a-32 value: what a cache keyed by a cheap fingerprint cannot tell apart
+            if let Some(coll) = fnv1a32_collision(&hb, splitmix(&mut st)) {
+                h_edits.push(("same-fnv1a32", Some(coll)));
+            }
             let mut d = hb.clone();
             d.pop();
             h_edits.push(("drop-last", Some(d)));
@@ -347,6 +351,25 @@ where
         }
     }
 
+    // the same refused call made a second time (a verdict remembered per input must be the right one)
+    {
+        let mut again: Vec<(&'static str, Vec<Vec<u8>>, Option<Vec<u8>>)> = vec![];
+        if l >= 1 {
+            again.push(("msg-delete", msgs[1..].to_vec(), header.clone()));
+            let mut m2 = msgs.clone();
+            m2[l - 1].push(1);
+            again.push(("msg-byte-change", m2, header.clone()));
+        }
+        again.push(("header-edit", msgs.clone(), Some([hb.clone(), vec![0x7e]].concat())));
+        for (fam, m2, h2) in again {
+            let first = v(&m2, h2.as_deref(), pk);
+            let second = v(&m2, h2.as_deref(), pk);
+            cx.expect_reject(fam, first || second, || format!("the same refused verification repeated: first call {}, second call {}", if first { "Ok" } else { "Err" }, if second { "Ok" } else { "Err" }))?;
+        }
+        let first = v(&msgs, hdr, &other);
+        let second = v(&msgs, hdr, &other);
+        cx.expect_reject("pk-other", first || second, || "the same refused verification under another key repeated".into())?;
+    }
     let nf = cx.families.borrow().len();
     rep.class(bucket(l));
     rep.class(&format!("header={}", c.header.class()));
@@ -460,7 +483,7 @@ fn sweep_cases(seed: u64, counts: impl Iterator<Item = usize>) -> Vec<Case> {
 /// 16 threads verify honest and edited statements of different sizes at once, starting in a cold process
 fn contention(ctx: &Ctx, rep: &Report) {
     let ck = "contention";
-    let sizes = [20usize, 40, 70, 17, 100, 33, 65, 24];
+    let sizes = [20usize, 40, 64, 17, 12, 33, 65, 24];
     let r = contend(ck, ctx.workers.max(4), ctx.tier.pick(2, 8), |t, round| {
         let l = sizes[(t + round * 3) % sizes.len()];
         let c = Case {
@@ -518,12 +541,12 @@ pub fn run(ctx: &Ctx, rep: &Report) -> Meta {
     let fx = fixed_cases(ctx.seed);
     par_items(ctx, rep, "fixed-shapes", &fx, |c| check(rep, "fixed-shapes", c));
     let sweep: Vec<Case> = match ctx.tier {
-        Tier::Quick => sweep_cases(ctx.seed, (13..=72).chain([127, 128, 129, 255, 256, 257])),
+        Tier::Quick => sweep_cases(ctx.seed, (13..=66).chain([127, 128, 129, 255, 256, 257])),
         Tier::Thorough => sweep_cases(ctx.seed, (13..=160).chain([255, 256, 257, 511, 512, 513])),
     };
     par_items(ctx, rep, "size-sweep", &sweep, |c| check(rep, "size-sweep", c));
     if !rep.aborted() {
-        rep.exhaustive(format!("every message count L in {} with the sampled-position catalogue", ctx.tier.pick("13..=72 and {127..129, 255..257}", "13..=160 and {255..257, 511..513}")));
+        rep.exhaustive(format!("every message count L in {} with the sampled-position catalogue", ctx.tier.pick("13..=66 and {127..129, 255..257}", "13..=160 and {255..257, 511..513}")));
     }
     // every header length: a fixed-size staging buffer, a block boundary or a length prefix that is too narrow bites at
     // one particular total size; for a few message counts the header takes every length 0..=1100 (quick) / 0..=2400
@@ -541,12 +564,12 @@ pub fn run(ctx: &Ctx, rep: &Report) -> Meta {
     Meta {
         rule: "honest (suite, key, header, msgs, signature) then the mutation catalogue enumerated per case: message byte change (random octet; first / last octet, one octet shorter / longer, leading zero octet for the first, last and one random message) / delete / prefix at every position, near-equal messages (same length, one octet apart, 7 to 1000 octets) in one vector, long data (messages and headers of 300 octets to 256 KiB), header-length-sweep: every header length 0..=1100 (quick) / 2400 for L in {1, 3, 10, 17} with tail edits, \
                insert (random, empty, neighbour) at every position 0..=L, extension by 1..=3, swap and replace-by-other of every pair with different contents (all pairs for L<=12), \
-               header edits as octet strings, pk in {other key, pk+G2, -pk}, every single-bit flip of the 80 signature octets (all 640 for L<=12), cross-suite, cross-interface in both directions (including the degenerate blind signature without commitment and without messages under every spelling of 'nothing', and the header-only plain signature through the blind verifier); \
+               header edits as octet strings (including one of the same length with the same FNV-1a-32 value), refused verifications repeated a second time, pk in {other key, pk+G2, -pk}, every single-bit flip of the 80 signature octets (all 640 for L<=12), cross-suite, cross-interface in both directions (including the degenerate blind signature without commitment and without messages under every spelling of 'nothing', and the header-only plain signature through the blind verifier); \
                the same catalogue under contention in a cold process, re-priming with the honest verification before the spelling / suite / interface families, all pairs swapped for half of the fixed shapes up to L = 33; oracle: every mutated verification (or decoding) returns Err; non-trivial = honest case with >= 5 mutation families executed; evaluations = mutated verifications"
             .into(),
         assumptions: vec![
             "accidental acceptance of a changed statement would need a hash collision (2^-128)".into(),
-            "shapes beyond the fixtures' 16-entry vectors are forced: L in {17, 21, 24, 33} with the full catalogue and every L in 13..=72 (quick) / 13..=160 (thorough) plus powers of two +-1 with the catalogue at sampled positions (first, second, middle, last two, random)".into(),
+            "shapes beyond the fixtures' 16-entry vectors are forced: L in {17, 21, 24, 33} with the full catalogue and every L in 13..=66 (quick) / 13..=160 (thorough) plus powers of two +-1 with the catalogue at sampled positions (first, second, middle, last two, random)".into(),
         ],
     }
 }
